@@ -134,8 +134,77 @@ fn run_program(case: &Case) -> Vec<String> {
     failures
 }
 
+/// Directed race rounds: `n` threads each own one handle of the same heap
+/// zone, meet at a barrier, and then drop / clone / query their handles at
+/// the same time. Miri's seeded scheduler (with preemption) interleaves the
+/// threads *inside* clone and drop; a lost count shows up as a leak, a
+/// double free or a use-after-free, a non-atomic access as a data race.
+fn race_rounds(full: bool) -> usize {
+    let specs = [
+        Spec::Posix(0),
+        Spec::TzifSynth { k: 1, tr: true },
+        Spec::TzifReal(10),
+    ];
+    // The small set (quick tier): the two heap kinds, two threads,
+    // drop/drop and clone+drop/clone+drop.
+    let specs = if full { &specs[..] } else { &specs[..2] };
+    let threads: &[usize] = if full { &[2, 3] } else { &[2] };
+    let patterns: &[u8] = if full { &[0, 1, 2, 3] } else { &[0, 1] };
+    let mut rounds = 0;
+    for spec in specs.iter() {
+        for &n in threads {
+            for &pattern in patterns {
+                let tz = interp::make_tz(spec);
+                let want = interp::answer(&tz, 1, 3);
+                let handles: Vec<TimeZone> = (0..n).map(|_| tz.clone()).collect();
+                drop(tz);
+                let barrier = Arc::new(std::sync::Barrier::new(n));
+                let mut joins = vec![];
+                for (i, h) in handles.into_iter().enumerate() {
+                    let b = barrier.clone();
+                    let want = want.clone();
+                    joins.push(std::thread::spawn(move || {
+                        b.wait();
+                        match pattern {
+                            0 => drop(h),
+                            1 => {
+                                let c = h.clone();
+                                drop(h);
+                                drop(c);
+                            }
+                            2 => {
+                                if i % 2 == 0 {
+                                    let c = h.clone();
+                                    drop(c);
+                                }
+                                drop(h);
+                            }
+                            _ => {
+                                let got = interp::answer(&h, 1, 3);
+                                assert_eq!(got, want, "answer changed under concurrency");
+                                drop(h);
+                            }
+                        }
+                    }));
+                }
+                for j in joins {
+                    j.join().expect("race thread panicked");
+                }
+                rounds += 1;
+            }
+        }
+    }
+    rounds
+}
+
 fn main() {
     let args: Vec<String> = std::env::args().collect();
+    if args.get(1).map(|s| s.as_str()) == Some("race") {
+        let full = args.get(2).map(|s| s.as_str()) != Some("small");
+        let rounds = race_rounds(full);
+        println!("MIRI-DONE race rounds={rounds} failures=0");
+        return;
+    }
     let seed: u64 = args.get(1).and_then(|s| s.parse().ok()).unwrap_or(1);
     let first: u64 = args.get(2).and_then(|s| s.parse().ok()).unwrap_or(0);
     let count: u64 = args.get(3).and_then(|s| s.parse().ok()).unwrap_or(2);
